@@ -485,6 +485,107 @@ def run_handler_case(cfg, case, pots, cells, seed):
     return out
 
 
+class Dispatch:
+    """patched random / warning for a POOL of handlers: delegates to the recorder of the member that is running"""
+
+    def __init__(self):
+        self.cur = None
+
+    def uniform(self, a, b):
+        return self.cur.uniform(a, b)
+
+    def expovariate(self, lambd):
+        return self.cur.expovariate(lambd)
+
+    def warning(self, name, bounding, real):
+        return self.cur.warning(name, bounding, real)
+
+
+def ref_values(fam, res):
+    ref_pot, ref_bnd = REF["pots"]
+    for c in res["pot_calls"]:
+        c["ref"] = f2b(ref_pot.derivative([b2f(x) for x in c["vel"]], [b2f(x) for x in c["sep"]],
+                                          *[b2f(x) for x in c["charges"]]))
+    if fam in ("leaf", "summed"):
+        for c in res["bnd_calls"]:
+            c["ref"] = f2b(ref_bnd.derivative([b2f(x) for x in c["vel"]], [b2f(x) for x in c["sep"]],
+                                              *[b2f(x) for x in c["charges"]]))
+
+
+def run_pool(cfg, pots, cells):
+    """Handler pool as built by Tagger.initialize: the configured handler and k deep copies of it (made once, after
+    initialize).  The schedule interleaves the members: several send_event_time calls (in-states with different
+    charge products) before any send_out_state, then the send_out_state calls in another order; several rounds on the
+    same pool.  Every member's run is reported like a single run."""
+    fam = cfg["family"]
+    pool_cfg = cfg["pool"]
+    cases = cfg["cases"]
+    disp = Dispatch()
+    saved = patch(disp)
+    results = [[] for _ in cases]
+    wrapped = []
+    try:
+        random.seed(cfg["est_seed"])
+        h0, _ = make_handler(cfg, dict(cases[0], use_charge=True, lifting=pool_cfg.get("lifting")), pots, cells)
+        members = [h0] + [copy.deepcopy(h0) for _ in range(pool_cfg["k"])]
+        logs = []
+        for h in members:
+            pc, bc = [], []
+            wrap_derivative(h._potential, pc)
+            wrapped.append(h._potential)
+            bnd = getattr(h, "_bounding_potential", None)
+            if bnd is not None:
+                wrap_derivative(bnd, bc)
+                wrapped.append(bnd)
+            logs.append((pc, bc))
+        for rnd in pool_cfg["rounds"]:
+            running = {}
+            for mi, ci in zip(rnd["members"], rnd["cases"]):
+                case = cases[ci]
+                rec = Recorder()
+                rec.umode = case["umodes"][0] if case["umodes"][0][0] != "tie" else ["u", f2b(0.5)]
+                rec.expo_values = case["expo"]
+                res = {"mode": rec.umode, "pool_member": mi, "deep": mi > 0, "pool": True}
+                disp.cur = rec
+                try:
+                    state = build_state(case)
+                    res["in"] = flatten(state)
+                    t = members[mi].send_event_time(state)
+                    res["time"] = [f2b(t.quotient), f2b(t.remainder)]
+                    res["sliced"] = flatten(state)
+                except Exception as e:  # noqa
+                    import traceback
+                    res["exc"] = exc_enum(e) + ": " + traceback.format_exc()[-700:]
+                running[mi] = (ci, rec, res, len(logs[mi][0]), len(logs[mi][1]))
+            for mi in rnd["out_order"]:
+                ci, rec, res, npot, nb = running[mi]
+                if "exc" not in res:
+                    disp.cur = rec
+                    try:
+                        o = members[mi].send_out_state()
+                        if o is None:
+                            res["skipped"] = True
+                        else:
+                            res["out"] = flatten(o)
+                        res["pot_calls"] = logs[mi][0][npot:]
+                        res["bnd_calls"] = logs[mi][1][nb:]
+                        if fam.startswith("cell") and logs[mi][1][nb:]:
+                            res["stub_rate"] = logs[mi][1][nb]["res"]
+                        ref_values(fam, res)
+                    except Exception as e:  # noqa
+                        import traceback
+                        res["exc"] = exc_enum(e) + ": " + traceback.format_exc()[-700:]
+                res["uniform"] = rec.uniform_calls
+                res["expo"] = rec.expo_calls
+                res["warn"] = rec.warn_calls
+                results[ci].append(res)
+    finally:
+        for o in wrapped:
+            unwrap_derivative(o)
+        unpatch(saved)
+    return results
+
+
 def run_handlers(cfg):
     setting.reset()
     L = b2f(cfg["L"])
@@ -498,7 +599,10 @@ def run_handlers(cfg):
     if cfg["family"].startswith(("cell", "veto")):
         from jellyfysh.activator.internal_state.cell_occupancy.cells.cuboid_periodic_cells import CuboidPeriodicCells
         cells = CuboidPeriodicCells(cells_per_side=[cfg["cells_per_side"]] * 3)
-    res = [run_handler_case(cfg, c, pots, cells, cfg["est_seed"] + i) for i, c in enumerate(cfg["cases"])]
+    if cfg.get("pool"):
+        res = run_pool(cfg, pots, cells)
+    else:
+        res = [run_handler_case(cfg, c, pots, cells, cfg["est_seed"] + i) for i, c in enumerate(cfg["cases"])]
     setting.reset()
     return res
 
